@@ -23,12 +23,12 @@ ANCHORS = ["decaylanguage.utils.particleutils:charge_conjugate_name", "decaylang
 WORKERS = {"quick": 4, "thorough": 16}
 WTESTS = {"groups": ['conj'], "tests": ['tests/decay', 'tests/utils', 'tests/dec/test_dec.py']}
 REQUIRED = {"kind:has-antiparticle": 300, "kind:self-conjugate": 50, "kind:in-table-no-conjugate": 10, "kind:unknown-label": 50,
-            "pdg-route": 500, "multiplicity>=4": 20, "metadata>=2-user-keys": 20, "cross-layer-file": 10, "cross-layer-file-with-the-cdecay-statement-twice": 3, "particle-and-antiparticle-with-unequal-multiplicities": 20, "names-again-after-an-ampgen-read-in-the-same-process": 100, "cross-layer-file-with-copy": 5, "cross-layer-file-with-sourceless-cdecay:sorting-first": 3, "returned-value-mutated-then-again": 50, "cache-cold": 1, "cache-evicting": 1,
+            "pdg-route": 500, "multiplicity>=4": 20, "metadata>=2-user-keys": 20, "cross-layer-file": 10, "evtgen-only-spelling-through-the-pdg-route": 100, "cross-layer-file-with-the-cdecay-statement-twice": 3, "particle-and-antiparticle-with-unequal-multiplicities": 20, "names-again-after-an-ampgen-read-in-the-same-process": 100, "cross-layer-file-with-copy": 5, "cross-layer-file-with-sourceless-cdecay:sorting-first": 3, "returned-value-mutated-then-again": 50, "cache-cold": 1, "cache-evicting": 1,
             "C04.name.matches_table_oracle": 1000, "C04.daughters.each_particle_with_multiplicity": 100, "C04.mode.bf_and_metadata_kept": 100}
 EXHAUSTIVE_NOTE = "every EvtGen name and every PDG name of the installed tables is visited by every worker subset union (sharded), both cache states"
 ASSUMPTIONS = ["the csv data tables of the installed particle package are the ground truth for IDs, names and self-conjugacy"]
 
-UNKNOWN = ["ChargeConj(Foo)", "ChargeConj(K+x)", "Foo", "X_1(3872)x", "my~part", "a/b", "q'", "zz*", "MyD0bar", "anti-Foo", "K+x", "pi", "ChargeConj", "B0sig", "D*+_cc", "(x)", "n~"]
+UNKNOWN = ["ChargeConj(Foo)", "ChargeConj(K+x)", "Foo", "X_1(3872)x", "my~part", "a/b", "q'", "zz*", "MyD0bar", "anti-Foo", "K+x", "pi", "ChargeConj", "B0sig", "D*+_cc", "(x)", "n~", "my resonance", "two\twords"]
 
 
 def check_name(ctx, n, pdg, tag):
@@ -241,6 +241,12 @@ def run(ctx):
         check_name(ctx, n + ("" if i < len(UNKNOWN) else str(i)), False, "unknown")
     for n in UNKNOWN[:6]:
         check_name(ctx, n, True, "unknown")
+    # EvtGen spellings that are no PDG names, asked through the PDG-name route: unknown there, hence wrapped -- not converted behind the caller's back
+    pdgset = set(pdg)
+    cross = [n for n in mine_e if n not in pdgset]
+    for n in cross:
+        ctx.hit("evtgen-only-spelling-through-the-pdg-route")
+        check_name(ctx, n, True, "cross-scheme")
     # random final states and modes
     for i in range(ctx.pick(500, 5000)):
         usepdg = i % 3 == 0
